@@ -982,11 +982,7 @@ class _SubProxy:
                 return passthrough
             return real
 
-        def f(*a, **k):
-            if not core.active():
-                return real(*a, **k)
-            return impl(*a, **k)
-        return f
+        return impl      # stubs handle the inactive (concrete) case themselves
 
 
 class NPProxy:
